@@ -40,11 +40,25 @@ def run_sharded(pid, tier, jobs, only):
     verif = os.path.dirname(os.path.dirname(os.path.abspath(__file__)))
     evdir = os.environ.get("VERIF_EVIDENCE_DIR") or os.path.join(verif, "evidence")
     t0 = time.time()
-    procs = []
     tmp = tempfile.mkdtemp(prefix=f"yv_{pid}_", dir="/var/tmp")
+    base_seed = int(os.environ.get("VERIF_SEED", "0") or 0)
+    # thorough tier: the whole check is repeated for three witness seeds (witness-guided exploration and the hash-selected
+    # sub-lattices depend on it); quick tier: the given seed only
+    seeds = [base_seed] if tier != "thorough" or only else [base_seed, base_seed + 1, base_seed + 2]
+    codes, evs, hung = [], [], 0
+    for sd in seeds:
+        c_, e_, h_ = _run_seed(pid, tier, jobs, only, verif, os.path.join(tmp, f"seed{sd}"), sd)
+        codes += c_
+        evs += e_
+        hung += h_
+    return _finish(pid, tier, jobs, evdir, tmp, t0, codes, evs, hung, seeds)
+
+
+def _run_seed(pid, tier, jobs, only, verif, tmp, sd):
+    procs = []
 
     def spawn(i, retry=0):
-        env = dict(os.environ, VERIF_SHARD=f"{i}/{jobs}", VERIF_EVIDENCE_DIR=os.path.join(tmp, f"s{i}"), VERIF_TIER=tier)
+        env = dict(os.environ, VERIF_SHARD=f"{i}/{jobs}", VERIF_EVIDENCE_DIR=os.path.join(tmp, f"s{i}"), VERIF_TIER=tier, VERIF_SEED=str(sd))
         if retry:
             env["VERIF_Z3_SEED"] = str(retry)
         cmd = [sys.executable, "-m", "yv.run", pid, "--tier", tier, "--jobs", "1"] + (["--only", only] if only else [])
@@ -71,6 +85,10 @@ def run_sharded(pid, tier, jobs, only):
             evs.append(json.load(open(os.path.join(tmp, f"s{i}", f"{pid}.json"))))
         except Exception:  # noqa
             pass
+    return codes, evs, hung
+
+
+def _finish(pid, tier, jobs, evdir, tmp, t0, codes, evs, hung, seeds):
     import shutil
 
     shutil.rmtree(tmp, ignore_errors=True)
@@ -86,7 +104,7 @@ def run_sharded(pid, tier, jobs, only):
                 ev["assumptions"].append(a)
     ev["coverage"]["samples"] = ev["coverage"].get("samples", [])[:10]
     ev["coverage"]["shards"] = {"n": jobs, "exit_codes": codes, "rule": "cells partitioned by crc32(key) % n; one-off parts in shard 0",
-                                "shards_rerun_after_solver_hang": hung}
+                                "shards_rerun_after_solver_hang": hung, "witness_seeds": seeds}
     ev["wall_s"] = round(time.time() - t0, 2)
     os.makedirs(evdir, exist_ok=True)
     with open(os.path.join(evdir, f"{pid}.json"), "w") as f:
